@@ -39,6 +39,8 @@ struct hpblock_hdr { struct hpblock_hdr* next; size_t size; };                  
 struct hpblock { struct hpblock_hdr h; struct hp_slot slots[XV_BNEW]; };
 struct dcb { struct hp_slot pointers[XV_K]; size_t total_number_of_hps; struct hpblock_hdr* hp_block; };
 struct dcb the_dcb; struct hpblock dyn_blk[XV_NB + 1];                          /* dyn_blk[XV_NB] is what operator new hands out */
+int mon_blk_order = -1;       /* order of the store that publishes a new dynamic block to the scanning threads */
+static void mon_blk_store(void* addr, int o) { if (addr == (void*)&the_dcb.hp_block) mon_blk_order = o; }
 
 /* ---------------- marked_ptr stubs (algebra proved in the marked_ptr unit) ---------------- */
 uintptr_t mp_ptrmask;                                      /* pointer_mask of the guard's MarkedPtr: arbitrary */
@@ -122,7 +124,9 @@ static size_t td_add_retired_node(uintptr_t p) { gh_retired_obj = p; gh_retire_c
 /* ---------------- monitors: per slot the last store and the first seq_cst fence after it; the loads of the source ---------------- */
 uint64_t mon_st_clock[XV_K], mon_fence_clock[XV_K]; uintptr_t mon_st_val[XV_K]; int mon_st_order[XV_K]; unsigned mon_st_count[XV_K]; _Bool mon_fenced[XV_K];
 mptr* mon_src; uint64_t mon_ld_clock; mptr mon_ld_val; int mon_ld_order; unsigned mon_ld_count; unsigned mon_weak_fence;
+static void mon_blk_store(void* addr, int o);
 static void mon_store(void* addr, uint64_t v, int o) {
+  mon_blk_store(addr, o);
   for (unsigned i = 0; i < XV_K; i++) if (addr == (void*)&the_cb.pointers[i].value) {
     mon_st_clock[i] = xv_clock; mon_st_val[i] = v; mon_st_order[i] = o; mon_st_count[i]++; mon_fenced[i] = 0; }
 }
@@ -634,6 +638,7 @@ void h_dyn(void) {
   for (unsigned j = 0; j < XV_BNEW; j++) if (j < hps)
     XV_OBL("hp.dynamic.need_more.never_throws", dyn_blk[XV_NB].slots[j].value == ((j + 1 < hps ? SLOTW(XV_K + XV_NB * XV_BNEW + j + 1) : 0) | SV_BIT));
   XV_OBL("hp.dynamic.need_more.never_throws", hint == (hps > 1 ? &dyn_blk[XV_NB].slots[1] : 0));
+  XV_OBL("hp.sync.orders", XV_IS_RELEASE(mon_blk_order));       /* the initialised block is published to scanning threads by a release store (7) */
   if (hps > XV_K) XV_CANARY("dyn.grow_half"); else XV_CANARY("dyn.grow_k");
 }
 #endif
